@@ -52,8 +52,8 @@ pub fn cases(ctx: &Ctx) -> Vec<Case> {
         return v;
     }
     let mut rng = Rng::derive(ctx.seed, &[0xC20]);
-    let n = if ctx.quick() { 150 } else { 5000 };
-    let nval = if ctx.quick() { 6 } else { 500 };
+    let n = if ctx.quick() { 480 } else { 8000 };
+    let nval = if ctx.quick() { 16 } else { 600 };
     let sizes = [Sz::lit(0), Sz::lit(1), Sz::lit(17), Sz::lit(300), Sz::lit(4096), Sz::lit(4097), Sz::new(0, 1, -17), Sz::new(0, 1, 1)];
     let scheds: Vec<Vec<u32>> = vec![vec![], vec![1], vec![1, 2, 3, 4, 5, 6, 7], vec![4095], vec![100_000, 1], vec![16, 17]];
     for i in 0..n {
